@@ -1,2 +1,7 @@
 # claim(id, category, text, note, technique, design_ref); NA = {id: reason}
 NA = {}
+claim("C04", "exploration",
+      "Held on the executions observed: differential runs of random verb chains over batch sizes / GOMAXPROCS / CPU mask / seeded perturbation at ~110 hooked sites (stdout and status must equal the reference run), a structured grid of early-exit chains judged by a goroutine-state deadlock classifier (not by timeouts) and a slicing model, --seed repetition, the Go race detector over a stress list aimed at shared state, and an online one-record-at-a-time streaming monitor. Schedules are sampled, not enumerated, so this is exploration; evidence reports hook-site hit counts and distinct interleaving signatures.",
+      "Trusts: the Go race detector and runtime.Stack dumps; hooks (build tag verif) only add delays/yields/trace at program points where goroutines are preemptible anyway; Python harness. Known findings C04-F2/F3 (shared random generator) are reported as KNOWN-FINDING lines.",
+      "differential runs + hang classifier on goroutine dumps + race detector + online streaming monitor",
+      "DESIGN.md section 3, C04")
